@@ -54,6 +54,15 @@ def check(prop: str, tier: str) -> int:
     not_built = [r for r in rule_ids if r not in RULES]
     ctx = Ctx(tier=tier)
     obs, per_rule, errors = _run_rules(ctx, built)
+    from .rules import PROPERTY_SCOPE
+
+    raw_counts = {rid: len(per_rule.get(rid, [])) for rid in built}
+    for rid in built:
+        scope = PROPERTY_SCOPE.get((prop, rid))
+        if scope:
+            keep = [o for o in per_rule[rid] if any((o.func.startswith(sfx[3:]) if sfx.startswith("fn:") else ("/" + sfx + ".py") in o.where.split(":")[0]) for sfx in scope)]
+            per_rule[rid] = keep
+    obs = [o for rid in built for o in per_rule.get(rid, [])]
     audit = R.load_audit()
     known, fixed = R.load_known()
     R.triage(obs, prop, audit, known)
@@ -67,7 +76,7 @@ def check(prop: str, tier: str) -> int:
     # vacuity guards
     for rid in built:
         _fn, mn, _ = RULES[rid]
-        n = len(per_rule.get(rid, []))
+        n = raw_counts.get(rid, 0)
         if n < mn and not any(o.state == "violation" for o in per_rule.get(rid, [])):
             errors.append(f"{rid}: rule went vacuous ({n} instances, {mn} confirmed by hand)")
 
